@@ -489,8 +489,27 @@ func c02AllocFieldVals2(A *ssa.Alloc, f int, handedOn bool) (vals, whole []ssa.V
 	if !ok || c02StructType(pt.Elem()) == nil || A.Referrers() == nil {
 		return nil, nil, false
 	}
+	// fifth pass: handed on also covers the object handed DOWN, as an argument of a call (an options object built by the
+	// caller, `f(&opts{…})`): under c02FieldOnlyBuilt the callee cannot write the field; what it reads is what was stored
+	// before the call, so every store to the field must come before every such call
+	var fstores []*ssa.Store
+	var handed []*ssa.Call
+	defer func() {
+		for _, c := range handed {
+			for _, st := range fstores {
+				if !c02InstrDominates(st, c) {
+					vals, whole, good = nil, nil, false
+				}
+			}
+		}
+	}()
 	for _, r := range *A.Referrers() {
 		switch x := r.(type) {
+		case *ssa.Call:
+			if !handedOn || x.Call.Value == ssa.Value(A) {
+				return nil, nil, false
+			}
+			handed = append(handed, x)
 		case *ssa.FieldAddr:
 			if x.Field != f || x.Referrers() == nil {
 				continue // the address of another field gives no access to this one
@@ -502,6 +521,7 @@ func c02AllocFieldVals2(A *ssa.Alloc, f int, handedOn bool) (vals, whole []ssa.V
 						return nil, nil, false
 					}
 					vals = append(vals, y.Val)
+					fstores = append(fstores, y)
 				case *ssa.UnOp:
 					if y.Op != token.MUL {
 						return nil, nil, false
@@ -750,12 +770,13 @@ func c02ExitResults(ex *ExitSum) []ssa.Value {
 func c02Boundary(c *Ctx, ro *c02Roles) bool {
 	w := c.W
 	nameV := ro.getCall.Call.Args[1]
-	nameD := desc(nameV)
 	lfi := w.Info(ro.L)
-	lNamed := lfi.edgesMatching(func(l string, _ *ssa.If, _ bool) bool { return l == "NE("+nameD+`,const:"")` })
+	// the edges / facts that decide the clause: tests of the name, or of the reader's error where that decides the name
+	// (c02NameFacts)
+	nf := c02NameFactsOf(ro)
 	if ro.L == ro.P {
-		ro.named = lNamed
-		ro.unnamed = lfi.edgesMatching(func(l string, _ *ssa.If, _ bool) bool { return l == "EQ("+nameD+`,const:"")` })
+		ro.named = nf.namedEdges(lfi)
+		ro.unnamed = nf.unnamedEdges(lfi)
 		return true
 	}
 	pfi := w.Info(ro.P)
@@ -815,8 +836,11 @@ func c02Boundary(c *Ctx, ro *c02Roles) bool {
 	}
 	var sides []side
 	for _, ex := range s.Exits {
-		_, n := ex.Checked["NE("+nameD+`,const:"")`]
-		_, u := ex.Checked["EQ("+nameD+`,const:"")`]
+		n, u := false, false
+		for l := range ex.Checked {
+			n = n || nf.named(l)
+			u = u || nf.unnamed(l)
+		}
 		if entry != nil {
 			// L does not test the name and runs only where P has found it non-empty: every exit is a "plugin named" exit
 			n, u = true, false
@@ -2748,4 +2772,275 @@ func c02CachedContains(w *World, v ssa.Value) (X string, list ssa.Value, ok bool
 		}
 	}
 	return "", nil, false
+}
+
+// ---------- the role of an argument, wherever the value travels (fifth pass) --------------------------------------------
+//
+// Class "several parameters bundled into a struct / value held in a local / parameter widened": the native identity check
+// is recognised by WHAT it is handed — the trusted identities of the policy statement and the certificate chain of the
+// signature — not by the parameter of P the identities arrive in. paramFedBy answers "which parameter of P does every
+// caller feed with `….TrustedIdentities`"; when the four policy parameters become one `policy` struct there is no such
+// parameter any more, yet the value handed to the check is the same. c02FedBy asks the question on the value: every value
+// the argument can be (c02Leaves: through phis, parameters of functions with a closed call-site list back to the arguments
+// of every call site, fields of struct VALUES back to the single place the field was built, results of module helpers back
+// to what they return) is a read whose access path ends in the suffix, and the expansion is complete. A field that is
+// assigned in more than one place, a struct whose address escapes or an open call-site list stop the expansion at a leaf
+// that does not end in the suffix: the argument is then not recognised and the rule stays undecided (never accepted).
+func c02FedBy(w *World, v ssa.Value, suffix string) bool {
+	leaves, ok := c02Leaves(w, v)
+	if !ok || len(leaves) == 0 {
+		return false
+	}
+	for _, l := range leaves {
+		if !strings.HasSuffix(desc(l), suffix) {
+			return false
+		}
+	}
+	return true
+}
+
+// ---------- "the signature names a verification plugin", however the lookup spells it (fifth pass) ----------------------
+//
+// The reference tree decides the clause on the NAME: `name, err := reader(signerInfo)`, then `if name != "" {…}`. The name
+// comes from a reader N of the module, `(…) -> (string, error)`, and N's two results are not independent: that is what the
+// class "sentinel error vs empty value" / "guard clauses on the error vs test of the value" of rewrites relies on
+// (`if err == errNotExist { return none }; if err != nil { return err }; …named…`). A test of the reader's ERROR decides the
+// clause exactly when it decides the name, and that is established on N's own code, in both directions:
+//
+//	err == nil  =>  name != ""   every success-capable exit of N has passed `name != ""` or `strings.TrimSpace(name) != ""` of
+//	                             the value it returns as the name (N's summary); TrimSpace returns a sub-slice of its argument
+//	                             (standard library): a non-empty result needs a non-empty argument. For the same reason the
+//	                             LABEL `NE(strings.TrimSpace(name),"")` is accepted wherever `NE(name,"")` is — whether the
+//	                             engine composed it into L's facts through N or it was written on the spot;
+//	err != nil  =>  name == ""   every return of N whose error operand is not the nil constant delivers the constant "" as
+//	                             the name (c02ErrMeansNoName, on the SSA returns of N, per phi edge for a single exit);
+//	err == G    =>  err != nil   for a package-level error variable G that is assigned once, in its package initialiser,
+//	                             the result of errors.New / fmt.Errorf (never nil), whose address goes nowhere
+//	                             (c02NonNilErrGlobal); likewise errors.Is(err, G).
+//
+// If N does not have that shape (a return `name, err` with both set), the error spellings decide nothing and the rule set
+// stands as before: only tests of the name count.
+type c02NameFacts struct {
+	nameD     string
+	errD      string   // the reader's error result, printed; "" when an error of the reader says nothing about the name
+	errNamed  bool     // the reader answers err == nil only with a name it has found non-empty
+	errTrim   bool     // … which it has found non-BLANK: with errD, a blank name (TrimSpace(name) == "") is the empty name
+	sentinels []string // printed forms of the never-nil error globals
+}
+
+func c02NameFactsOf(ro *c02Roles) *c02NameFacts {
+	w := ro.w
+	nameV := ro.getCall.Call.Args[1]
+	nf := &c02NameFacts{nameD: desc(nameV)}
+	e, ok := c02Unconv(nameV).(*ssa.Extract)
+	if !ok {
+		return nf
+	}
+	nc, ok := e.Tuple.(*ssa.Call)
+	if !ok {
+		return nf
+	}
+	N := staticCallee(nc)
+	if N == nil || N.Blocks == nil || !w.IsProductFn(N) || !c02ReturnsError(N) || !c02ErrMeansNoName(N, e.Index) {
+		return nf
+	}
+	nf.errD = descTailErr(nc)
+	// err == nil => name != "": every success-capable exit of N has passed a test that says so of the very value it returns
+	if s := w.Summarize(N, Mode{Kind: mErr}); s.Complete && len(s.Exits) > 0 {
+		nf.errNamed, nf.errTrim = true, true
+		for _, ex := range s.Exits {
+			rs := c02ExitResults(ex)
+			own := &c02NameFacts{nameD: desc(rs[e.Index])}
+			found := false
+			for l := range ex.Checked {
+				found = found || own.named(l)
+			}
+			if !found {
+				nf.errNamed = false
+			}
+			trimmed := false
+			for l := range ex.Checked {
+				trimmed = trimmed || c02StrTest(l, "NE", "call:strings.TrimSpace("+own.nameD+")")
+			}
+			if !trimmed {
+				nf.errTrim = false
+			}
+		}
+	}
+	seen := map[*ssa.Global]bool{}
+	for _, f := range w.moduleCallees(N) {
+		for _, b := range f.Blocks {
+			r, isRet := blockTerm(b).(*ssa.Return)
+			if !isRet || len(r.Results) == 0 {
+				continue
+			}
+			ld, isLd := r.Results[len(r.Results)-1].(*ssa.UnOp)
+			if !isLd || ld.Op != token.MUL {
+				continue
+			}
+			if g, isG := ld.X.(*ssa.Global); isG && !seen[g] && c02NonNilErrGlobal(w, g) {
+				seen[g] = true
+				nf.sentinels = append(nf.sentinels, desc(ld))
+			}
+		}
+	}
+	return nf
+}
+
+// named: on an edge / exit carrying the label l the signature names a plugin.
+func (nf *c02NameFacts) named(l string) bool {
+	trim := "call:strings.TrimSpace(" + nf.nameD + ")"
+	if c02StrTest(l, "NE", nf.nameD) || c02StrTest(l, "NE", trim) {
+		return true
+	}
+	return nf.errD != "" && nf.errNamed && l == "EQ("+nf.errD+",nil)"
+}
+
+// unnamed: on an edge / exit carrying the label l the signature names no plugin.
+func (nf *c02NameFacts) unnamed(l string) bool {
+	if c02StrTest(l, "EQ", nf.nameD) {
+		return true
+	}
+	if nf.errD == "" {
+		return false
+	}
+	if l == "NE("+nf.errD+",nil)" {
+		return true
+	}
+	// a non-empty name came with err == nil (errD), which the reader answers for a non-blank name only (errTrim): a blank name
+	// is the empty one
+	if nf.errTrim && c02StrTest(l, "EQ", "call:strings.TrimSpace("+nf.nameD+")") {
+		return true
+	}
+	for _, g := range nf.sentinels {
+		if l == "EQ("+nf.errD+","+g+")" || l == "EQ("+g+","+nf.errD+")" || l == "T(call:errors.Is("+nf.errD+","+g+"))" {
+			return true
+		}
+	}
+	return false
+}
+
+// c02StrTest: the label is the test `x == ""` (op EQ) / `x != ""` (op NE) of the string x, in one of the engine's two normal
+// forms (compared with "", or its length compared with 0).
+func c02StrTest(l, op, x string) bool {
+	return l == op+"("+x+`,const:"")` || l == op+"(len("+x+"),const:0)"
+}
+
+func (nf *c02NameFacts) namedEdges(fi *FnInfo) map[edgeKey]bool {
+	return fi.edgesMatching(func(l string, _ *ssa.If, _ bool) bool { return nf.named(l) })
+}
+
+func (nf *c02NameFacts) unnamedEdges(fi *FnInfo) map[edgeKey]bool {
+	return fi.edgesMatching(func(l string, _ *ssa.If, _ bool) bool { return nf.unnamed(l) })
+}
+
+// c02ErrMeansNoName: every way N returns delivers the nil constant as its error or the constant "" as result k. Operands
+// that are phis of the return block (single exit with result variables) are judged edge by edge.
+func c02ErrMeansNoName(N *ssa.Function, k int) bool {
+	n := 0
+	for _, b := range N.Blocks {
+		r, ok := blockTerm(b).(*ssa.Return)
+		if !ok {
+			continue
+		}
+		if k >= len(r.Results)-1 {
+			return false
+		}
+		n++
+		nv, ev := r.Results[k], r.Results[len(r.Results)-1]
+		if isNilConst(ev) || c02IsEmptyString(nv) {
+			continue
+		}
+		np, nIsPhi := nv.(*ssa.Phi)
+		ep, eIsPhi := ev.(*ssa.Phi)
+		if nIsPhi && np.Block() != b {
+			nIsPhi = false
+		}
+		if eIsPhi && ep.Block() != b {
+			eIsPhi = false
+		}
+		if !nIsPhi && !eIsPhi {
+			return false
+		}
+		for i := range b.Preds {
+			x, y := nv, ev
+			if nIsPhi {
+				x = np.Edges[i]
+			}
+			if eIsPhi {
+				y = ep.Edges[i]
+			}
+			if !isNilConst(y) && !c02IsEmptyString(x) {
+				return false
+			}
+		}
+	}
+	return n > 0
+}
+
+var c02NonNilMemo = map[*ssa.Global]bool{}
+
+// c02NonNilErrGlobal: g is a package-level variable of the module that holds a non-nil error for the whole run: one store
+// in the program, in the initialiser of its package, of the result of errors.New or fmt.Errorf; every other use is a load.
+func c02NonNilErrGlobal(w *World, g *ssa.Global) bool {
+	if r, ok := c02NonNilMemo[g]; ok {
+		return r
+	}
+	// (an exported variable can be assigned by code outside the module)
+	ok := g.Pkg != nil && g.Pkg.Pkg != nil && strings.HasPrefix(g.Pkg.Pkg.Path(), modPath) && !token.IsExported(g.Name())
+	fns := append([]*ssa.Function{}, w.Funcs...)
+	if ok {
+		if in := g.Pkg.Func("init"); in != nil {
+			dup := false
+			for _, f := range fns {
+				if f == in {
+					dup = true
+				}
+			}
+			if !dup {
+				fns = append(fns, in)
+			}
+		}
+	}
+	stores := 0
+	for _, fn := range fns {
+		if !ok {
+			break
+		}
+		for _, b := range fn.Blocks {
+			for _, in := range b.Instrs {
+				uses := false
+				for _, op := range in.Operands(nil) {
+					if op != nil && *op == ssa.Value(g) {
+						uses = true
+					}
+				}
+				if !uses {
+					continue
+				}
+				switch x := in.(type) {
+				case *ssa.UnOp:
+					if x.Op != token.MUL {
+						ok = false
+					}
+				case *ssa.DebugRef:
+				case *ssa.Store:
+					call, isCall := x.Val.(*ssa.Call)
+					if x.Addr != ssa.Value(g) || x.Val == ssa.Value(g) || !isCall || fn.Name() != "init" || fn.Pkg != g.Pkg || fn.Parent() != nil {
+						ok = false
+						break
+					}
+					if cn := calleeName(call); cn != "errors.New" && cn != "fmt.Errorf" {
+						ok = false
+					}
+					stores++
+				default:
+					ok = false
+				}
+			}
+		}
+	}
+	ok = ok && stores == 1
+	c02NonNilMemo[g] = ok
+	return ok
 }
